@@ -741,7 +741,15 @@ fn c18_type<T: KS + Send + Sync>(out: &mut Out, rng0: &mut Rng, tier: &Tier) {
                         calls.push((false, 0));
                         remaining -= 1;
                     } else {
-                        let nn = match rng.below(6) {
+                        let nn = match rng.below(7) {
+                            // skip counts that do not fit 32 bits (a 64-bit usize): far beyond any node
+                            6 => match rng.below(5) {
+                                0 => 1usize << 32,
+                                1 => (1usize << 32) + rng.below(nk_total + 2),
+                                2 => (3usize << 40) + rng.below(16),
+                                3 => u32::MAX as usize + rng.below(3),
+                                _ => usize::MAX - rng.below(2),
+                            },
                             0 => rng.below(5),
                             1 => 5 + rng.below(4),
                             2 => (remaining.max(0) as usize).saturating_sub(1),
@@ -750,7 +758,10 @@ fn c18_type<T: KS + Send + Sync>(out: &mut Out, rng0: &mut Rng, tier: &Tier) {
                             _ => rng.below(nk_total + 8),
                         };
                         calls.push((true, nn));
-                        remaining -= nn as i64 + 1;
+                        remaining = remaining.saturating_sub((nn as i64).max(0).saturating_add(1));
+                        if nn > (1usize << 40) {
+                            remaining = 0;
+                        }
                     }
                 }
                 let callsv: Vec<V> = calls
